@@ -41,7 +41,19 @@ def _bounded(ctx, b, t, cap_field, buf_field):
     at = Slicer(ctx.w).atoms(b, t["args"][1])
     has_min = any(re.search(r"call:.*(::min$|cmp::min$|Ord>::min$)", a) for a in at)
     has_sub = any(re.search(r"call:.*saturating_sub$|call:.*checked_sub$|binop:Sub", a) for a in at)
-    return has_min and has_sub and ("field:" + cap_field in at) and ("field:" + buf_field in at), at
+    # the room is what the cap leaves above the *whole* buffer: the subtrahend is `buf.len()` itself, not a part of it
+    # (for send_buf the bytes in flight still sit in the buffer and count against the cap)
+    whole = []
+    subs = [(bb2, t2["args"][0], t2["args"][1], t2["s"]) for bb2, t2 in b.calls(re.compile(r"::(saturating_sub|checked_sub|wrapping_sub)$")) if len(t2["args"]) == 2]
+    subs += [(bb2, s2["r"]["a"], s2["r"]["b"], s2["s"]) for bb2, i2, s2 in b.all_stmts() if i2 != "term" and s2["r"]["k"] == "bin" and s2["r"]["op"].startswith("Sub")]
+    for bb2, a0, a1, sp in subs:
+        if "field:" + cap_field not in Slicer(ctx.w).atoms(b, a0):
+            continue
+        o = origin(b, a1)
+        while o["k"] == "cast":
+            o = o["o"]
+        whole.append(o["k"] == "call" and re.search(r"::len$", o["t"]["f"]) is not None and _on_field(b, o["t"]["args"][0], buf_field))
+    return has_min and has_sub and ("field:" + cap_field in at) and ("field:" + buf_field in at) and bool(whole) and all(whole), at
 
 
 def r1(ctx):
@@ -228,7 +240,29 @@ def r4(ctx):
         okh = want is not None and forms == want
         ctx.inst(R, "max_payload:headers", okh, mp.span, f"payload room = MTU - (IP header + UDP header): {sorted(forms)}" if okh else
                  f"max_payload is not MTU minus the IP header and the UDP header in each address family (offsets found {sorted(forms)}, constants {consts})")
-    ctx.floor(R, 2)
+    # the MTU is chosen the same way for UDP and for TCP: the read of Kernel::loopback_mtu hangs on the same predicate in both
+    sel = {}
+    for fid in ("turmoil_net::kernel::udp::max_payload", "turmoil_net::kernel::tcp::mss_for"):
+        fb = ctx.body(R, fid)
+        if not fb:
+            continue
+        lo = [bb for bb, i, s2 in fb.all_stmts() if i != "term" and any(place_last_field(pl) == K + "loopback_mtu" for pl in [op_place(o) for o in _rv_ops(s2["r"])] if pl)]
+        preds = set()
+        for sbb, te, fe, o in guards_on(fb, lambda o: o["k"] == "call"):
+            if lo and all(fb.dominated_by_any(x, edges=te) for x in lo):
+                preds.add(o["t"]["f"])
+        sel[fid] = (preds, fb.span)
+    if len(sel) == 2:
+        (pa, sa), (pb, sb) = sel.values()
+        ok = bool(pa) and pa == pb
+        ctx.inst(R, "mtu-selection:udp~tcp", ok, sa, f"both choose loopback_mtu under {sorted(x.rsplit('::', 1)[1] for x in pa)}" if ok else
+                 f"udp::max_payload chooses the loopback MTU under {sorted(pa)} but tcp::mss_for under {sorted(pb)}: on a path where they differ one protocol "
+                 "accepts a payload that the other bounds by the smaller MTU (a datagram larger than the MTU of the interface it leaves from is accepted)")
+    ctx.floor(R, 3)
+
+
+def _rv_ops(r):
+    return [o for o in [r.get("o"), r.get("a"), r.get("b")] + list(r.get("ops", [])) if isinstance(o, dict)]
 
 
 def r5(ctx):
